@@ -162,6 +162,21 @@ func (ec *evalCtx) specCall(call *ast.CallExpr) Value {
 			return Ite(Le(a, b), a, b)
 		}
 		return Ite(Ge(a, b), a, b)
+	case "noErrorIn":
+		// noErrorIn(xs): no element of the []any xs is a non-nil error
+		need(1)
+		sl, ok := arg(0).(*SliceV)
+		if !ok || !sl.Len.IsInt() {
+			return Var(ec.e().fresher.name("noErrorIn"), SBool)
+		}
+		var cs []*Term
+		etag := ec.e().typeTag("error")
+		for i := int64(0); i < sl.Len.Int.Int64(); i++ {
+			if iv, ok := sl.At(Int(i)).(*IfaceV); ok {
+				cs = append(cs, Implies(Eq(iv.Tag, Int(etag)), Eq(iv.Id, Int(0))))
+			}
+		}
+		return And(cs...)
 	case "flat":
 		// flat(ss, n): concatenation of the first n elements of a slice of strings
 		need(2)
@@ -214,6 +229,13 @@ func (ec *evalCtx) specCall(call *ast.CallExpr) Value {
 	case "in":
 		need(1)
 		return ec.inLval(arg(0)).get()
+	case "ctxerr":
+		need(1)
+		iv, ok := arg(0).(*IfaceV)
+		if !ok {
+			panic(unsupported("ctxerr of %T", arg(0)))
+		}
+		return App("ctx.Err", SInt, iv.Id)
 	case "cv":
 		// cv(): the context value shared by every context of the current render
 		need(0)
@@ -265,11 +287,7 @@ func (ec *evalCtx) specCall(call *ast.CallExpr) Value {
 		if !ok {
 			panic(unsupported("payload of %T", arg(0)))
 		}
-		pos := token.NoPos
-		if ec.fc != nil && ec.fc.body != nil {
-			pos = ec.fc.body.Lbrace + 1
-		}
-		t := ec.e().evalTypeExpr(ec.pkg, pos, call.Args[1])
+		t := ec.e().evalTypeExpr(ec.pkg, ec.typePos(), call.Args[1])
 		_, p := ec.assertTo(iv, t)
 		return p
 	case "underlying":
@@ -285,11 +303,7 @@ func (ec *evalCtx) specCall(call *ast.CallExpr) Value {
 		if !ok {
 			panic(unsupported("dyntype of %T", arg(0)))
 		}
-		pos := token.NoPos
-		if ec.fc != nil && ec.fc.body != nil {
-			pos = ec.fc.body.Lbrace + 1
-		}
-		t := ec.e().evalTypeExpr(ec.pkg, pos, call.Args[1])
+		t := ec.e().evalTypeExpr(ec.pkg, ec.typePos(), call.Args[1])
 		return Eq(iv.Tag, Int(ec.e().typeTag(types.TypeString(t, nil))))
 	case "held":
 		need(1)
@@ -490,4 +504,14 @@ func jsUnitValue(s string) int64 {
 		return -1
 	}
 	return int64(s[1]) // identity escape
+}
+
+// typePos: a position for resolving type expressions of contracts: inside the
+// function body when the contract belongs to the function's own package (file
+// imports are visible), otherwise the package scope.
+func (ec *evalCtx) typePos() token.Pos {
+	if ec.fc != nil && ec.fc.body != nil && ec.pkg == ec.fc.pkg {
+		return ec.fc.body.Lbrace + 1
+	}
+	return token.NoPos
 }
